@@ -712,9 +712,10 @@ func (m *Model) Listening() []string {
 // ReleaseCatch lets every token waiting at catch event id continue (used for catch events whose firing
 // the property only bounds: the model follows the engine's own LeaveTrace there).
 func (m *Model) ReleaseCatch(id string) bool {
+	// one LeaveTrace is one token leaving: release one
 	var rest, moved []*mtoken
 	for _, t := range m.tokens {
-		if t.node.ID == id && t.node.Kind == "catch" && !t.stuck {
+		if len(moved) == 0 && t.node.ID == id && t.node.Kind == "catch" && !t.stuck {
 			moved = append(moved, t)
 		} else {
 			rest = append(rest, t)
